@@ -425,7 +425,9 @@ def run_case(spec: dict, passes: list[str], conv_steps: bool = True):
     steps: structural-correspondence obligations (Coq text fragments)."""
     import onnx_ir as ir
     mp0 = G.build(spec)
-    m = ir.serde.deserialize_model(mp0)
+    import onnx
+    # the IR wraps the proto's tensors (renaming a Value renames them): give it a private copy
+    m = ir.serde.deserialize_model(onnx.ModelProto.FromString(mp0.SerializeToString()))
     conv = Conv()
     protos = [mp0]
     steps = []
@@ -556,3 +558,461 @@ def oracle(spec: dict, passes: list[str], seed: int, protos=None, raised=None, u
         if diff or len(o0) != len(o1):
             bad.append(f"outputs-differ(onnxruntime): after {passes}: positions {diff}")
     return bad, info
+
+
+def const_string_outputs(mp):
+    """Per main-graph output: the exact byte strings when it is (an Identity chain over) a string Constant / initializer.
+    The evaluators print b'a' and b'a\\0' alike, so string constants are compared at the proto level."""
+    import onnx
+    prod = {}
+    for n in mp.graph.node:
+        for o in n.output:
+            prod[o] = n
+    inits = {i.name: i for i in mp.graph.initializer}
+    res = []
+    for out in mp.graph.output:
+        name, val = out.name, None
+        for _ in range(64):
+            if name in inits:
+                t = inits[name]
+                val = [bytes(x) for x in t.string_data] if t.data_type == onnx.TensorProto.STRING else None
+                break
+            n = prod.get(name)
+            if n is None:
+                break
+            if n.op_type == "Identity" and n.domain == "":
+                name = n.input[0]
+                continue
+            if n.op_type == "Constant" and n.domain == "":
+                for a in n.attribute:
+                    if a.name == "value" and a.t.data_type == onnx.TensorProto.STRING:
+                        val = [bytes(x) for x in a.t.string_data]
+                    elif a.name == "value_string":
+                        val = [bytes(a.s)]
+                    elif a.name == "value_strings":
+                        val = [bytes(x) for x in a.strings]
+            break
+        res.append(val)
+    return res
+
+
+_oracle_exec = oracle
+
+
+def oracle(spec, passes, seed, protos=None, raised=None, use_ort=True):  # noqa: F811
+    """Execution oracle + exact comparison of string constants that reach an output."""
+    if protos is None:
+        protos, _, raised = run_case(spec, passes, conv_steps=False)
+    bad, info = _oracle_exec(spec, passes, seed, protos, raised, use_ort and G.ort_comparable(spec))
+    if info["valid"] and not bad and len(protos) > 1:
+        c0 = const_string_outputs(protos[0])
+        for i, mp in enumerate(protos[1:]):
+            c1 = const_string_outputs(mp)
+            d = [j for j, (a, b) in enumerate(zip(c0, c1)) if a is not None and b is not None and a != b]
+            if d:
+                bad.append(f"outputs-differ(string-constant-bytes): step {i} {passes[i]}: positions {d}: "
+                           f"before {[c0[j] for j in d]} after {[c1[j] for j in d]}")
+                break
+    return bad, info
+
+
+# --------------------------------------------------------------------------- known findings: site + witness shape
+
+def _walk_nodes(spec):
+    def rec(nodes):
+        for n in nodes:
+            yield n
+            for tv in n.get("attrs", {}).values():
+                if tv[0] == "g":
+                    yield from rec(tv[1]["nodes"])
+    yield from rec(spec["nodes"])
+    for f in spec.get("functions", []):
+        yield from rec(f["nodes"])
+
+
+def _subgraphs(spec):
+    def rec(nodes):
+        for n in nodes:
+            for tv in n.get("attrs", {}).values():
+                if tv[0] == "g":
+                    yield tv[1]
+                    yield from rec(tv[1]["nodes"])
+    yield from rec(spec["nodes"])
+    for f in spec.get("functions", []):
+        yield from rec(f["nodes"])
+
+
+def _has_zero_float_attr(spec):
+    for n in spec["nodes"]:
+        for tv in n.get("attrs", {}).values():
+            if (tv[0] == "f" and float(tv[1]) == 0.0) or (tv[0] == "fs" and any(float(x) == 0.0 for x in tv[1])):
+                return True
+    return False
+
+
+def _has_string_const(spec):
+    return any(tv[0] in ("t", "s", "ss") and (tv[0] != "t" or tv[1][0] in ("S", "S2"))
+               for n in _walk_nodes(spec) for tv in n.get("attrs", {}).values())
+
+
+def classify(spec: dict, passes: list[str], failure: str) -> str | None:
+    """Map an oracle failure to the key of a recorded finding (call site = pass + failure kind + witness shape)."""
+    import re
+    m = re.search(r"step (\d+) (\w+)", failure)
+    step_pass = m.group(2) if m else (passes[-1] if passes else "")
+    kind = failure.split(":")[0]
+    if not m:
+        # the onnxruntime comparison is made at the end of a sequence: attribute it to a recorded site of the sequence
+        for cand in ("cse", "cse100", "dce", "liftall"):
+            if cand in passes:
+                step_pass = cand
+                break
+    if step_pass in ("cse", "cse100"):
+        if kind == "checker-rejects-after" and "Field 'type' of 'value_info' is required" in failure:
+            return "cse-graph-output-type-lost"
+        if kind.startswith("outputs-differ") and _has_zero_float_attr(spec):
+            return "cse-float-signed-zero"
+        if kind.startswith("outputs-differ") and _has_string_const(spec):
+            return "cse-string-tensor-nul-padding"
+    if step_pass == "dce" and kind.startswith("outputs-differ") and any(
+            n["op"] == "BatchNormalization" and "training_mode" in n.get("attrs", {}) for n in _walk_nodes(spec)):
+        return "dce-batchnorm-training-mode"
+    if step_pass == "ident" and any(True for _ in _subgraphs(spec)):
+        if kind == "checker-rejects-after" and "is not an output of any node in graph" in failure:
+            return "identity-elim-outer-scope-output"
+        if kind == "pass-raised" and "already an output of a different graph" in failure:
+            return "identity-elim-outer-scope-output"
+    if step_pass == "addinit" and kind == "checker-rejects-after" and "inputs but" in failure and any(True for _ in _subgraphs(spec)):
+        return "addinit-subgraph-initializers-become-inputs"
+    if step_pass == "liftall" and _has_string_const(spec):
+        if kind == "pass-raised" and "UnicodeEncodeError" in failure:
+            return "liftall-value-string-numpy-bytes"
+        if kind.startswith("outputs-differ"):
+            return "liftall-value-string-numpy-bytes"
+    return None
+
+
+_classify_base = classify
+
+
+def classify(spec, passes, failure):  # noqa: F811
+    k = _classify_base(spec, passes, failure)
+    if k:
+        return k
+    import re
+    m = re.search(r"step (\d+) (\w+)", failure)
+    step_pass = m.group(2) if m else ""
+    kind = failure.split(":")[0]
+    outs = [o[0] for o in spec["outputs"]]
+    if step_pass in ("cse", "cse100") and kind == "checker-rejects-after" and "has been used as output names multiple times" in failure \
+            and len(set(outs)) != len(outs):
+        return "cse-duplicate-graph-output-identity-names"
+    if step_pass == "inline" and any(set(f["outs"]) & set(f["ins"]) for f in spec.get("functions", [])) and (
+            (kind == "pass-raised" and "already an output of a different graph" in failure)
+            or (kind == "checker-rejects-after" and "is not an output of any node in graph" in failure)):
+        return "inline-passthrough-into-subgraph-output"
+    return None
+
+
+# --------------------------------------------------------------------------- shrinking
+
+def _valid(spec) -> bool:
+    import onnx
+    try:
+        onnx.checker.check_model(G.build(spec), full_check=True)
+        return True
+    except Exception:  # noqa: BLE001
+        return False
+
+
+def shrink(spec: dict, passes: list[str], seed: int, key_of) -> tuple[dict, list[str]]:
+    """Greedy: drop passes, outputs, nodes (any scope), functions, initializers while the same failure class persists."""
+    import copy
+
+    def fails(s, ps):
+        if not ps or not _valid(s):
+            return False
+        try:
+            bad, info = oracle(s, ps, seed)
+        except Exception:  # noqa: BLE001
+            return False
+        return bool(info["valid"] and bad and key_of(s, ps, bad[0]))
+    cur, ps = copy.deepcopy(spec), list(passes)
+    changed = True
+    rounds = 0
+    while changed and rounds < 6:
+        changed = False
+        rounds += 1
+        for i in range(len(ps)):
+            p2 = ps[:i] + ps[i + 1:]
+            if fails(cur, p2):
+                ps, changed = p2, True
+                break
+        for i in range(len(cur["outputs"]) - 1, -1, -1):
+            if len(cur["outputs"]) > 1:
+                c2 = copy.deepcopy(cur)
+                del c2["outputs"][i]
+                if fails(c2, ps):
+                    cur, changed = c2, True
+
+        def node_lists(s):
+            yield s["nodes"]
+            for n in _walk_nodes(s):
+                for tv in n.get("attrs", {}).values():
+                    if tv[0] == "g":
+                        yield tv[1]["nodes"]
+            for f in s.get("functions", []):
+                yield f["nodes"]
+        li = 0
+        while True:
+            lists = list(node_lists(cur))
+            if li >= len(lists):
+                break
+            j = len(lists[li]) - 1
+            while j >= 0:
+                c2 = copy.deepcopy(cur)
+                l2 = list(node_lists(c2))[li]
+                del l2[j]
+                if fails(c2, ps):
+                    cur, changed = c2, True
+                j -= 1
+            li += 1
+        for i in range(len(cur.get("functions", [])) - 1, -1, -1):
+            c2 = copy.deepcopy(cur)
+            del c2["functions"][i]
+            if fails(c2, ps):
+                cur, changed = c2, True
+        for i in range(len(cur.get("inits", [])) - 1, -1, -1):
+            c2 = copy.deepcopy(cur)
+            nm = c2["inits"][i][0]
+            del c2["inits"][i]
+            c2["inputs"] = [x for x in c2["inputs"] if x[0] != nm]
+            if fails(c2, ps):
+                cur, changed = c2, True
+        for i in range(len(cur["inputs"]) - 1, 0, -1):
+            c2 = copy.deepcopy(cur)
+            del c2["inputs"][i]
+            if fails(c2, ps):
+                cur, changed = c2, True
+    return cur, ps
+
+
+# --------------------------------------------------------------------------- Coq runs (memory-capped)
+
+def coq_run(ck, text: str, tag: str, timeout: int = 240) -> tuple[int, str]:
+    p = os.path.join(ck.scratch, f"{tag}.v")
+    with open(p, "w", encoding="utf-8") as f:
+        f.write(text)
+    cmd = (f"ulimit -v 3000000; exec timeout {timeout} coqc -Q {os.path.join(common.COQ, 'theories')} IRV -w -all {p}")
+    return common.sh(["bash", "-c", cmd], cwd=ck.scratch, timeout=timeout + 30)
+
+
+def coq_steps(ck, steps: list[Step], tag: str) -> tuple[list[int], list[int]]:
+    """-> (indices of disagreeing steps, indices of steps whose input is outside the model's precondition)."""
+    import concurrent.futures as cf
+    import re
+    chunks = [steps[i:i + 40] for i in range(0, len(steps), 40)]
+
+    def one(ic):
+        i, ch = ic
+        rc, out = coq_run(ck, steps_to_coq(ch), f"{tag}_{i}")
+        if rc != 0:
+            raise RuntimeError(f"case file {tag}_{i} did not compile / ran out of resources:\n{out[-1500:]}")
+        lists = re.findall(r"=\s*(\[[^\]]*\]|nil)", out)
+        if len(lists) != 2:
+            raise RuntimeError("unexpected coq output:\n" + out[-1500:])
+        pr = lambda b: [] if b == "nil" else [int(x) for x in re.findall(r"\d+", b)]  # noqa: E731
+        return [i * 40 + k for k in pr(lists[0])], [i * 40 + k for k in pr(lists[1])]
+    dis, inv = [], []
+    with cf.ThreadPoolExecutor(max_workers=4) as ex:
+        for a, b in ex.map(one, enumerate(chunks)):
+            dis += a
+            inv += b
+    return dis, inv
+
+
+# --------------------------------------------------------------------------- main
+
+def _corpus():
+    d = os.path.join(common.CORPUS, "C05")
+    out = []
+    if os.path.isdir(d):
+        for fn in sorted(os.listdir(d)):
+            if fn.endswith(".json"):
+                with open(os.path.join(d, fn)) as f:
+                    c = json.load(f)
+                c["_file"] = fn
+                out.append(c)
+    return out
+
+
+def gen_cases(rng, n_specs: int, n_seq: int):
+    """(spec, passes, seed) : every pass alone on every spec, plus random sequences of length 2..4."""
+    cases = []
+    for i in range(n_specs):
+        seed = rng.randrange(1 << 30)
+        spec = G.Gen(random.Random(seed)).gen_model()
+        for name in PASS_NAMES:
+            cases.append((spec, [name], seed))
+        for _ in range(n_seq):
+            cases.append((spec, [rng.choice(PASS_NAMES) for _ in range(rng.choice([2, 3, 4]))], seed))
+    return cases
+
+
+def check_cases(ck, cases, tag: str, structural: bool = True):
+    """Run implementation + oracle on the cases; structural correspondence in Coq. Returns oracle failures."""
+    steps_all, owners = [], []
+    failures = []
+    for ci, (spec, passes, seed) in enumerate(cases):
+        try:
+            protos, steps, raised = run_case(spec, passes, conv_steps=structural)
+        except Exception as e:  # noqa: BLE001
+            ck.hist("outcomes", "build-error:" + type(e).__name__)
+            continue
+        bad, info = oracle(spec, passes, seed, protos, raised, use_ort=(ci % 3 == 0))
+        ck.count()
+        if not info["valid"]:
+            ck.hist("outcomes", "outside-quantifier:" + info.get("invalid", "")[:28])
+            continue
+        ck.hist("ort", info["ort"])
+        for p in passes:
+            ck.hist("passes", p)
+        ck.hist("sequence_length", str(len(passes)))
+        changed = any(st.before != st.after for st in steps) if steps else None
+        if changed:
+            ck.nontriv((spec, passes))
+        if bad:
+            failures.append((spec, passes, seed, bad))
+            ck.hist("outcomes", "oracle-failure")
+        else:
+            ck.hist("outcomes", "preserved" + ("-rewritten" if changed else ""))
+        if raised is None or steps:
+            for st in steps:
+                st.case = ci
+                steps_all.append(st)
+        if len(ck.coverage["samples"]) < 4 and changed and len(passes) == 1 and len(json.dumps(spec)) < 1500:
+            ck.sample({"spec": spec, "passes": passes, "oracle": "outputs equal before/after", "rewritten": True})
+    mism = []
+    if structural and steps_all:
+        dis, inv = coq_steps(ck, steps_all, tag)
+        inv_set = set(inv)
+        ck.coverage["traces_validated_against_impl"] = ck.coverage.get("traces_validated_against_impl", 0) + len(steps_all) - len(inv_set)
+        for i in inv_set:
+            ck.hist("structural", "input-outside-model-precondition")
+        for i, st in enumerate(steps_all):
+            if i not in inv_set:
+                ck.hist("structural", st.kind + ":" + st.pass_name)
+        for i in dis:
+            if i in inv_set:
+                continue
+            st = steps_all[i]
+            mism.append((st, cases[st.case]))
+    return failures, mism
+
+
+def report_failures(ck, failures, reported: set):
+    for spec, passes, seed, bad in failures:
+        key = classify(spec, passes, bad[0])
+        if key and ck.known(key):
+            ck.known_finding(key, ck.known(key)["what"])
+            continue
+        sig = (tuple(passes[-1:]), bad[0].split(":")[0])
+        if sig in reported:
+            continue
+        reported.add(sig)
+        k0 = bad[0].split(":")[0]
+        small, ps = shrink(spec, passes, seed, lambda s, p, f: f.split(":")[0] == k0 and not (classify(s, p, f) and ck.known(classify(s, p, f))))
+        b2, _ = oracle(small, ps, seed)
+        ck.violation({"kind": "oracle", "spec": small, "passes": ps, "input_seed": seed, "failures": b2 or bad,
+                      "required": "checker accepts after, same number/order/type of outputs and non-initializer inputs, "
+                                  "bitwise equal outputs (NaN-aware) before/after"})
+
+
+def replay_known(ck):
+    for k in ck._known:
+        if k.get("status") != "known":
+            continue
+        w = k["witness"]
+        bad, info = oracle(w["spec"], w["passes"], w.get("input_seed", 0))
+        if info["valid"] and bad and classify(w["spec"], w["passes"], bad[0]) == k["key"]:
+            ck.known_finding(k["key"], k["what"])
+        else:
+            ck.broken(f"known-finding-stale:{k['key']}",
+                      f"the recorded witness no longer fails on the implementation (valid={info.get('valid')}, failures={bad})")
+
+
+def search(ck, reported: set):
+    """A proof obligation or the correspondence is broken and no failing input is known yet: fresh seeded cases."""
+    budget = 25 if not ck.thorough else 250
+    cases = gen_cases(ck.rng, budget, 8)
+    failures, _ = check_cases(ck, cases, "search", structural=False)
+    fresh = [f for f in failures if not (classify(f[0], f[1], f[3][0]) and ck.known(classify(f[0], f[1], f[3][0])))]
+    if fresh:
+        report_failures(ck, fresh[:1], reported)
+
+
+def run(ck) -> None:
+    import logging
+    logging.disable(logging.WARNING)
+    ck.trust("Coq 8.16.1 kernel (coqc; vm_compute in case files; no native_compute)",
+             "tools/translate.py helpers (fail-closed reading of the non-deterministic operator set)",
+             "harness/props/c05.py + _c05_gen.py (generator, IR->term converter incl. attribute sorting and identity maps, "
+             "schema table from onnx.defs, traversal orders read from the public API, oracle)",
+             "onnx.checker / onnx.reference.ReferenceEvaluator / onnxruntime as judges of 'accepted' and 'computes'",
+             "modelled not verified: real operator semantics (uninterpreted `interp` with the listed hypotheses), numpy "
+             "conversion of value_int(s)/float(s)/string(s) Constants (table handed to the model), exact sort order (C12), "
+             "names/metadata/shapes (outside the term language: frame-checked)")
+    ck.assumptions += ["operator semantics are functions of (op id, attributes with type, body denotations, inputs, #outputs), monotone in body denotations",
+                       "Identity is the identity; trailing omitted optional inputs are ignored",
+                       "ONNX attributes form a named set (converter sorts by name)"]
+    ck.coverage["rule"] = "a pass actually rewrote the model (term before != term after) and the oracle executed both"
+    generate(ck)
+    ck.prove()
+    reported: set = set()
+    # corpus first
+    corpus = _corpus()
+    ccases = [(c["spec"], c["passes"], c.get("input_seed", 0)) for c in corpus]
+    failures, mism = check_cases(ck, ccases, "corpus")
+    # generated cases
+    n_specs, n_seq = (34, 5) if not ck.thorough else (400, 8)
+    cases = gen_cases(ck.rng, n_specs, n_seq)
+    f2, m2 = check_cases(ck, cases, "gen")
+    failures += f2
+    mism += m2
+    for st, (spec, passes, seed) in mism[:5]:
+        ck.broken(f"correspondence:{st.pass_name}",
+                  json.dumps({"pass": st.pass_name, "kind": st.kind, "spec": spec, "passes": passes, "model_expr": st.expr,
+                              "before": st.before[:3000], "after": st.after[:3000]}))
+    replay_known(ck)
+    report_failures(ck, failures, reported)
+    # self-check of the generator: every pass ran, rewriting passes rewrote something
+    h = ck.coverage.get("passes", {})
+    missing = [p for p in PASS_NAMES if not h.get(p)]
+    if missing:
+        ck.broken("generator-selfcheck", f"passes never exercised: {missing}")
+    if ck.broken_items and not ck.violations:
+        # a mismatch: try its own case with the oracle first, then fresh cases
+        for st, (spec, passes, seed) in mism[:3]:
+            bad, info = oracle(spec, passes, seed)
+            if info["valid"] and bad and not (classify(spec, passes, bad[0]) and ck.known(classify(spec, passes, bad[0]))):
+                report_failures(ck, [(spec, passes, seed, bad)], reported)
+                break
+        if not ck.violations:
+            search(ck, reported)
+    if any(o["name"].endswith("_partial") for o in ck.obligations):
+        ck.notes.append("some per-pass theorems are partial (see Property.v); remaining passes are covered by correspondence + oracle only")
+
+
+def replay(rp: dict) -> int:
+    import logging
+    logging.disable(logging.WARNING)
+    spec = rp.get("spec") or (rp.get("witness") or {}).get("spec")
+    if spec is None:
+        print("replay names a broken obligation/correspondence, no concrete input:",
+              json.dumps(rp.get("broken"), indent=1)[:3000])
+        return 1
+    passes = rp.get("passes") or rp["witness"]["passes"]
+    bad, info = oracle(spec, passes, rp.get("input_seed", 0))
+    print(json.dumps({"passes": passes, "valid_before": info.get("valid"), "failures": bad,
+                      "known_as": classify(spec, passes, bad[0]) if bad else None}, indent=1))
+    return 1 if (bad or not info.get("valid")) else 0
